@@ -137,6 +137,9 @@ pub enum Op {
     DropEp,
     Sleep { us: u32 },
     Yield,
+    /// (choreography marker) this side has released every half of the peer-initiated bidirectional stream it
+    /// held: the peer's stream slot is free again from now on
+    SlotReleased,
     /// `Connection::authenticated()` (resolves when the handshake completed, 0-RTT accepted or not)
     Authenticated(Cancel),
 }
@@ -240,6 +243,8 @@ pub struct ConnM {
     pub next_dgram: u64,
     /// the acceptor refused (or dropped) an Incoming of this connection attempt
     pub refused: bool,
+    /// stop-drop choreography: when the server side let go of the one client-initiated bidirectional stream
+    pub slot_released_at: Option<u64>,
 }
 
 #[derive(Default, Debug)]
@@ -492,6 +497,14 @@ impl Ctx {
         let mut found: Option<(String, String)> = None;
         {
             let m = self.m.borrow();
+            // stop-drop choreography: the peer has let go of the only stream that occupied the slot
+            if let ("open_bi", Some((ci, 0))) = (p.kind, p.conn) {
+                if let Some(t) = m.conns[ci].slot_released_at {
+                    if m.conns[ci].sides[0].first_err.is_none() && m.conns[ci].sides[1].first_err.is_none() && now.saturating_sub(t.max(p.since)) >= SETTLE_NS {
+                        found = Some(("c18/teardown/stream-slot-not-released".into(), format!("open_bi on connection {ci} pending since {} ns; the peer read the only client-initiated bidirectional stream to its end, was stopped on its sending half and dropped both handles at {t} ns, now {now} ns, no datagram was lost: the stream never became terminal at the peer, its slot was not returned", p.since)));
+                    }
+                }
+            }
             if let Some((k, reader)) = p.stream {
                 if let Some(d) = m.conns[k.0].streams.get(&(k.1, k.2)) {
                     if reader {
@@ -930,6 +943,10 @@ where
             if let Some(g) = this.gate {
                 let v = g();
                 if this.gate_seen == Some(v) {
+                    // the re-poll probes are not due, the overdue oracles are
+                    if let Some(p) = &p {
+                        this.ctx.check_overdue(p);
+                    }
                     return Poll::Pending;
                 }
                 this.gate_seen = Some(v);
@@ -2156,6 +2173,11 @@ async fn exec_op(ctx: &Ctx, t: &mut Task, op: &Op) {
         Op::DropEp => t.ep = None,
         Op::Sleep { us } => sleep(&ctx.sim, *us as u64 * 1000).await,
         Op::Yield => Yield::default().await,
+        Op::SlotReleased => {
+            let now = ctx.now();
+            ctx.m.borrow_mut().conns[ci].slot_released_at.get_or_insert(now);
+            ctx.label("stream-slot-released");
+        }
         Op::Authenticated(c) => {
             let Some(conn) = &t.conn else { return };
             let cq = &conn.c;
@@ -3079,12 +3101,12 @@ fn arb_conn() -> impl Strategy<Value = RawConn> {
 
 fn compile(rc: RawConn) -> ConnProg {
     let mut tasks: [Vec<Vec<Op>>; 2] = [vec![vec![]; rc.n_tasks[0]], vec![vec![]; rc.n_tasks[1]]];
-    if rc.stopdrop {
-        let nc = Cancel::default;
-        tasks[0][0].extend([Op::OpenBi(nc()), Op::Write { s: LAST, len: 10, c: nc() }, Op::Finish { s: LAST }, Op::Stop { r: LAST, code: 3 }, Op::OpenBi(nc()), Op::Finish { s: LAST }]);
-        tasks[1][0].extend([Op::AcceptBi(nc()), Op::ReadAll { r: LAST, style: 0, piece: 64, c: nc() }, Op::Stopped { s: LAST, c: nc() }, Op::DropSend { s: LAST }, Op::DropRecv { r: LAST }, Op::AcceptBi(nc())]);
-    }
+
     for (f, client_opens, ot, at) in rc.flows {
+        if rc.stopdrop && f.bi && client_opens {
+            // the choreography owns the single client-initiated bidirectional slot
+            continue;
+        }
         let (o, a) = if client_opens { (0, 1) } else { (1, 0) };
         let ot = pick(ot, rc.n_tasks[o]).unwrap();
         let at = pick(at, rc.n_tasks[a]).unwrap();
@@ -3117,6 +3139,15 @@ fn compile(rc: RawConn) -> ConnProg {
         for (i, (len, lazy)) in storm.iter().enumerate() {
             tasks[s][i % n].push(Op::SendDgramWait { len: *len, c: Cancel::default(), lazy: *lazy });
         }
+    }
+    if rc.stopdrop {
+        // placed in front of everything else once the extras have found their places, so that nothing can
+        // slip in between (LAST must keep naming the handles of this stream)
+        let nc = Cancel::default;
+        let a = vec![Op::OpenBi(nc()), Op::Write { s: LAST, len: 10, c: nc() }, Op::Finish { s: LAST }, Op::Stop { r: LAST, code: 3 }, Op::OpenBi(nc()), Op::Finish { s: LAST }];
+        let b = vec![Op::AcceptBi(nc()), Op::ReadAll { r: LAST, style: 0, piece: 64, c: nc() }, Op::Stopped { s: LAST, c: nc() }, Op::DropSend { s: LAST }, Op::DropRecv { r: LAST }, Op::SlotReleased, Op::AcceptBi(nc())];
+        tasks[0][0].splice(0..0, a);
+        tasks[1][0].splice(0..0, b);
     }
     let mut k = 0;
     for s in 0..2 {
